@@ -143,6 +143,10 @@ def id_schemes(n, rng, thorough):
             yield ids
         ids = ['a'] * n
         yield ids
+        # duplicates among the *falsy* ids (0 and '' are ids like any other)
+        yield [0] * n
+        yield [''] * n
+        yield ([0, ''] * n)[:n]
 
 
 def generate(tier, rng):
@@ -202,6 +206,12 @@ def generate(tier, rng):
               '{"jsonrpc":"2.0","method":"echo","params":{"a":-Infinity},"id":2}', '{"jsonrpc":"2.0","method":"noargs","id":1,"x":Infinity}',
               '[{"jsonrpc":"2.0","method":"echo","params":[Infinity]}]'):
         yield case(t, std, tag='non-json-token')
+    # number literals RFC 8259 admits and Python reads as a non-finite float, and the non-JSON tokens, in the *id* position
+    for t in ('1e999', '-1e999', '1E400', 'NaN', 'Infinity', '-Infinity', '1.5', '-0.0', '1e2'):
+        yield case('{"jsonrpc":"2.0","method":"noargs","id":' + t + '}', std, tag='float-id')
+        yield case('[{"jsonrpc":"2.0","method":"noargs","id":' + t + '},{"jsonrpc":"2.0","method":"noargs","id":1}]', std, tag='float-id', elementwise=True)
+        yield case('{"jsonrpc":"2.0","method":"nosuch","id":' + t + '}', std, tag='float-id')
+    yield case('{"jsonrpc":"2.0","method":"echo","params":[1e999],"id":1}', std, tag='float-id')
     yield case('{"jsonrpc":"2.0","method":"noargs","id":' + '7' * 5000 + '}', std, tag='digit-limit')
     yield case('[' + '1' * 4301 + ']', std, tag='digit-limit')
     yield case('{"jsonrpc":"2.0","method":"echo","id":1,"params":[' + '9' * 4300 + ']}', std)
@@ -306,6 +316,10 @@ def gen_c12(tier, rng):
             for r in C12_REQUESTS[:3]:
                 yield case(json.dumps(r), cfg(middlewares=stack), tag='c12-ill')
             yield case(json.dumps([C12_REQUESTS[0], dict(C12_REQUESTS[0], id=2)]), cfg(middlewares=stack), tag='c12-ill')
+            # ... also for the notification elements of a batch: what the chain returns for them is sent
+            for batch in ([C12_REQUESTS[0], C12_REQUESTS[1]], [C12_REQUESTS[1]], [C12_REQUESTS[3], C12_REQUESTS[1], C12_REQUESTS[2]],
+                          [C12_REQUESTS[1], C12_REQUESTS[7]]):
+                yield case(json.dumps(batch), cfg(middlewares=stack), elementwise=True, tag='c12-ill')
 
 
 # ------------------------------------------------------------------------------------------------
@@ -351,6 +365,8 @@ def wellformed_response(r):
         return False
     if 'id' not in r or not (r['id'] is None or (isinstance(r['id'], (int, str, float)) and not isinstance(r['id'], bool))):
         return False
+    if isinstance(r['id'], float) and _non_finite(r['id']):
+        return False                 # `Infinity` / `NaN` are not JSON numbers
     if set(r) - {'jsonrpc', 'id', 'result', 'error'}:
         return False
     if ('result' in r) == ('error' in r):
@@ -582,9 +598,13 @@ def _oracle_half(prop, c, o, half):
             fail(f'raised:{r["exc"]}', f'dispatch raised {r["exc"]}')
         elif r['k'] == 'reply':
             doc = _decoded(o)
-            if not o.get('strict_json', True):
+            if not wellformed_doc(doc):
+                fail('malformed-response', 'response document is not a JSON-RPC 2.0 response (object or non-empty array)')
+            elif not o.get('strict_json', True):
                 # the reply echoes a non-JSON token the *request* contained (D20): only then is it excused here
-                if cls != 'non-json-token':
+                # (the proviso "methods return JSON-encodable values": the echo method returned the non-finite float it was given)
+                reqs = v if isinstance(v, list) else [v]
+                if not any(isinstance(e, dict) and _non_finite(e.get('params')) for e in reqs):
                     fail('reply-not-json', 'response text is not RFC 8259 JSON')
             elif not wellformed_doc(doc):
                 fail('malformed-response', 'response document is not a JSON-RPC 2.0 response (object or non-empty array)')
@@ -712,6 +732,13 @@ def _oracle_c12(c, o, half, cls, v, fail):
         return
     for e, x in zip(v, o['elements']):
         _c12_element(c, e, list(x['events']), fail)
+    # whatever the chain returns for an element (a notification included) is what is sent
+    r = o['result']
+    if r['k'] != 'raised' and all(x['result']['k'] in ('reply', 'nothing') for x in o['elements']):
+        want_docs = [_decoded(x) for x in o['elements'] if x['result']['k'] == 'reply']
+        got = _decoded(o) if r['k'] == 'reply' else []
+        if enc(got if isinstance(got, list) else [got]) != enc(want_docs):
+            fail('chain-result-not-sent', 'the batch answer is not what the chain returned for its elements, in order', enc(want_docs))
 
 
 def _c12_element(c, e, ev, fail):
